@@ -1541,6 +1541,10 @@ fn recall_case(wl: &str, group: usize, rng: &mut Rng, st: &mut Stats, assert_flo
             }
         }
     }
+    if rng.chance(1, 50) {
+        st.sample(|| json!({"monitor": "recall", "workload": wl, "draws_in_statistic": group,
+        "statistics": sums.iter().map(|(n, (sum, floor, _))| json!({"name": n, "mean": sum / group as f64, "floor": floor})).collect::<Vec<_>>()}));
+    }
     let mut g = RECALL_VALUES.lock().unwrap();
     for (name, (sum, floor, vals)) in sums {
         g.entry(name).or_insert((floor, vec![])).1.extend(&vals);
@@ -1736,6 +1740,11 @@ fn stress_case(case: u64, rng: &mut Rng, st: &mut Stats, ops_per_writer: usize, 
     let hist = Hist { had_removal: true };
     audit(&idx, &model, &ever, &Model::new(), &cfg, &g, &hist, &Focus::default(), rng, st, false, &ctx);
     st.distinct(vcore::fnv_str(&format!("stress {case} {}", cfg_json(&cfg))));
+    if rng.chance(1, 16) {
+        st.sample(|| json!({"monitor": "concurrent", "config": cfg_json(&cfg), "writers": WRITERS, "searchers": 2,
+        "mutations": wlogs.iter().map(|l| l.len()).sum::<usize>(), "searches": slogs.iter().map(|l| l.len()).sum::<usize>(),
+        "searches_overlapping_a_mutation": overlapped}));
+    }
 }
 
 // ---------------------------------------------------------------------------------------------
@@ -1762,20 +1771,20 @@ fn main() {
         println!("{}", serde_json::to_string_pretty(&recall_summary()).unwrap());
         run.finish();
     }
-    if run.wants("seq") {
-        run.parallel("seq", t.pick(4000, 60000), t.pick(0.45, 0.40), |c, rng, st| seq_case(c, rng, st, 40));
-    }
     if run.wants("recall") {
         let draws = run.arg_u64("draws", t.pick(RECALL_DRAWS_QUICK, RECALL_DRAWS_THOROUGH));
         // one case = one asserted statistic = `group` draws of one workload
-        let plan: Vec<(&str, usize)> = WORKLOADS
+        // (interleaved over the workloads, so that a time cut thins all of them evenly)
+        let mut plan: Vec<(usize, &str, usize)> = WORKLOADS
             .iter()
             .flat_map(|wl| {
                 let g = recall_group(wl);
-                std::iter::repeat_n((*wl, g), (draws as usize).div_ceil(g))
+                (0..(draws as usize).div_ceil(g)).map(move |i| (i * g, *wl, g))
             })
             .collect();
-        run.parallel("recall", plan.len() as u64, 0.6, |c, rng, st| {
+        plan.sort();
+        let plan: Vec<(&str, usize)> = plan.into_iter().map(|(_, wl, g)| (wl, g)).collect();
+        run.parallel("recall", plan.len() as u64, 0.55, |c, rng, st| {
             let (wl, group) = plan[c as usize];
             recall_case(wl, group, rng, st, true)
         });
@@ -1783,7 +1792,11 @@ fn main() {
         run.set_extra("recall_distribution_measured_at_construction", json!(MEASURED_AT_CONSTRUCTION));
     }
     if run.wants("stress") {
-        run.parallel("stress", t.pick(48, 1500), 0.9, |c, rng, st| stress_case(c, rng, st, t.pick(150, 600), t.pick(150, 600)));
+        run.parallel("stress", t.pick(48, 600), 0.35, |c, rng, st| stress_case(c, rng, st, t.pick(150, 600), t.pick(150, 600)));
+    }
+    // last: the history monitor takes whatever budget is left (its floors are far below its yield)
+    if run.wants("seq") {
+        run.parallel("seq", t.pick(4000, 60000), 0.9, |c, rng, st| seq_case(c, rng, st, 40));
     }
     for m in METRICS {
         run.floor(&format!("search_{}", metric_name(m)), t.pick(20_000, 400_000));
@@ -1821,7 +1834,7 @@ fn main() {
     run.finish();
 }
 
-const RECALL_DRAWS_QUICK: u64 = 15;
+const RECALL_DRAWS_QUICK: u64 = 12;
 const RECALL_DRAWS_THOROUGH: u64 = 100;
 
 /// Draws per asserted statistic (1 = every draw asserted on its own); decided from the
